@@ -55,6 +55,26 @@ pub fn run() {
                     let r = rx.try_recv_timeout(Duration::from_micros(nums[0]));
                     out.push(json!({"op": op, "out": cls(r), "us": t0.elapsed().as_micros() as u64}))
                 },
+                "F" => {
+                    // a timed receive whose timeout (nums[0] us) ends in the MIDDLE of an incoming multi-fragment message: another thread
+                    // starts sending after 10 ms and pauses nums[1] ms after the first fragment.  A message that has begun is finished
+                    // (the rest is read blocking) and returned; it is never dropped half-way
+                    let t = tx.take();
+                    let pause = nums[1] as i64;
+                    let h = std::thread::spawn(move || {
+                        std::thread::sleep(Duration::from_millis(10));
+                        delay_after_first(pause * 1000);
+                        if let Some(t) = &t {
+                            let _ = t.send(payload(id, 12000));
+                        }
+                        delay_after_first(0);
+                        t
+                    });
+                    let r = rx.try_recv_timeout(Duration::from_micros(nums[0]));
+                    let us = t0.elapsed().as_micros() as u64;
+                    tx = h.join().unwrap();
+                    out.push(json!({"op": op, "out": cls(r), "us": us}))
+                },
                 "I" => {
                     // a signal with a handler reaches the thread while it waits: poll() fails with EINTR (injected by the interposer)
                     eintr_every(1);
